@@ -60,6 +60,29 @@ def run_unit(uname, ucfg, repo):
                         res['failed'].append(dict(kind='requires@callsite', fn=rel, label='ENTRY', name=oname, aux=False,
                                                   message='call-site precondition not discharged: ' + why, site_text=' '.join(src[m.start():close + 1].split())[:200],
                                                   clause_text=ucfg['requires_text']))
+    # grammar-level precondition of the driver contract (unit c11_driver requires `!definition.recovers()`): the grammar names no
+    # error-recovery symbol `!` in any production, so the generated `uses_error_recovery()` is false
+    g = ucfg.get('grammar_no_recovery')
+    if g:
+        gp = os.path.join(repo, g)
+        oname = f"{uname}::{g}::requires@callsite[NO-RECOVERY]"
+        if not os.path.exists(gp):
+            res['status'] = 'undecided'
+            res['reason'] = f'lost anchor: {g}'
+        else:
+            gsrc = open(gp, encoding='utf-8').read()
+            gm = rsscan.mask(gsrc)
+            n += 1
+            res['obligation_names'].append(oname)
+            res['functions'].append(dict(kind='grammar', source=g, selector='every production (no `!` recovery symbol)', sha=hashlib.sha256(gsrc.encode()).hexdigest()[:16], name='grammar'))
+            hits = [x for x in re.finditer(r'(?<!\w)!(?!=)(?!\s*[\w(\[{!&*\-"\'])', gm)]
+            if hits:
+                h = hits[0]
+                line = gsrc.count('\n', 0, h.start()) + 1
+                res['failed'].append(dict(kind='requires@callsite', fn=g, label='NO-RECOVERY', name=oname, aux=False,
+                                          message=f'the grammar uses the error-recovery symbol `!` (line {line}): the driver may then skip tokens and still accept; '
+                                                  'the precondition `!definition.recovers()` of [PARSE-ACCEPT] (unit c11_driver) does not hold',
+                                          site_text=' '.join(gsrc[max(0, h.start() - 60):h.end() + 20].split()), clause_text=ucfg.get('no_recovery_text', '')))
     res['n_obligations'] = n
     res['n_discharged'] = n - len(res['failed'])
     exp = ucfg.get('expect_sites')
